@@ -178,6 +178,12 @@ def observe(case) -> dict:
             pass
         finally:
             plt0.close("all")
+    if (case["rows"] + case["cols"] + case["ul"]) % 3 == 0:
+        # a call the library REJECTS (values of another grid's shape) and whose error the caller handles: it must leave the plot as it was
+        try:
+            mp.add_node_values(np.arange((case["rows"] + 1) * (case["cols"] + 2), dtype=float).reshape(case["rows"] + 1, case["cols"] + 2) + 2.0)
+        except (AssertionError, ValueError, IndexError):
+            pass
     if vals is not None:
         mp.add_node_values(vals, color_map=case["cmap"], hide_colorbar=case.get("hide_colorbar", False))
     if case["added"] is not None:
